@@ -477,6 +477,14 @@ class F:
                 return
             if n == g.raise_exit:
                 return
+            # `(v := e)` anywhere in the node binds v for the rest of the path
+            for e_ in node.exprs:
+                if e_ is None:
+                    continue
+                for w in walk_local(e_):
+                    if isinstance(w, ast.NamedExpr) and isinstance(w.target, ast.Name) and w.target.id not in keep:
+                        env = dict(env)
+                        env[w.target.id] = subst(w.value, env)
             states = [(lits, env)]
             if node.kind == "stmt" and isinstance(node.stmt, (ast.Assign, ast.AnnAssign)) and node.stmt.value is not None:
                 tg = node.stmt.targets if isinstance(node.stmt, ast.Assign) else [node.stmt.target]
@@ -619,6 +627,36 @@ class F:
                     others = [i for i, val, b in self.stores(f"{v.id}[__k]") if i not in sts]
                     if sts and not others:
                         return {"src": self.x(n.stmt.iter), "key": kk, "val": vv, "kept": self.condition_of((n.idx, "iter"), [n.idx], sts), "nodes": sts}
+        return None
+
+    def list_filter(self, value: ast.AST):
+        """Recognise `value` as an order-preserving filtered copy of a sequence: `[x for x in SRC if COND]` or a name built by
+        `L = []; for x in SRC: [conditions] L.append(x)`.  Returns {src, var, kept (condition AST), nodes} or None."""
+        g = self.g
+        v = value
+        if isinstance(v, ast.Name):
+            ev = self.xe(v)
+            if isinstance(ev, ast.ListComp):
+                v = ev
+        if isinstance(v, ast.ListComp) and len(v.generators) == 1 and isinstance(v.generators[0].target, ast.Name):
+            gen = v.generators[0]
+            tv = gen.target.id
+            if norm(v.elt) != tv:
+                return None
+            conds = [c for i in gen.ifs for c in M.conjuncts(i)]
+            kept = ast.BoolOp(op=ast.And(), values=conds) if len(conds) > 1 else conds[0] if conds else ast.Constant(value=True)
+            return {"src": self.x(gen.iter), "var": tv, "kept": kept, "nodes": []}
+        if isinstance(v, ast.Name):
+            init = [val for i, val, b in self.stores(v.id)]
+            if len(init) != 1 or not (isinstance(init[0], ast.List) and not init[0].elts or norm(init[0]) == "list()"):
+                return None
+            for n in g.nodes:
+                if n.kind == "for" and isinstance(n.stmt.target, ast.Name):
+                    tv = n.stmt.target.id
+                    apps = [i for i, c, b in self.call_sites(f"{v.id}.append({tv})")]
+                    others = [i for m_ in ("append", "insert", "extend", "remove", "pop", "sort", "reverse", "clear") for i, c, b in self.call_sites(f"{v.id}.{m_}(___)") if i not in apps]
+                    if apps and not others:
+                        return {"src": self.x(n.stmt.iter), "var": tv, "kept": self.condition_of((n.idx, "iter"), [n.idx], apps), "nodes": apps}
         return None
 
     def witness(self, dst: int, nodes: Iterable[int] = (), src: Optional[int] = None) -> List[str]:
